@@ -7,22 +7,23 @@ export GOFLAGS=-mod=mod GOPROXY=off GOSUMDB=off GOTOOLCHAIN=local
 V="$(cd "$(dirname "$0")/.." && pwd)"
 SRC="${SELFTEST_SRC:-/repo}"
 BIN="${PVBIN:-$V/bin/plushvc}"
-props="$@"; [ -z "$props" ] && props=$(ls "$V/selftest" | grep '^C')
+props="$@"; [ -z "$props" ] && props=$( (ls "$V/selftest"; ls "$V/seeded") | grep '^C' | sort -u)
 fail=0
 for p in $props; do
-  for patch in "$V"/selftest/$p/*.patch; do
+  # the corpus of a property = its hand-made patches + the independently seeded change (section 14)
+  for patch in "$V"/selftest/$p/*.patch "$V"/seeded/$p/patch.diff; do
     [ -f "$patch" ] || continue
     scratch=$(mktemp -d /tmp/pvself.XXXXXX)
     (cd "$SRC" && git ls-files -z | xargs -0 cp --parents -t "$scratch")
-    if ! (cd "$scratch" && patch -s -p1 < "$patch"); then echo "STALE  $p $(basename $patch)"; fail=1; rm -rf "$scratch"; continue; fi
-    if ! (cd "$scratch" && go build ./... 2>/dev/null); then echo "NOBUILD $p $(basename $patch)"; rm -rf "$scratch"; fail=1; continue; fi
+    if ! (cd "$scratch" && patch -s -p1 < "$patch"); then echo "STALE  $p $(basename $(dirname $patch))/$(basename $patch)"; fail=1; rm -rf "$scratch"; continue; fi
+    if ! (cd "$scratch" && go build ./... 2>/dev/null); then echo "NOBUILD $p $(basename $(dirname $patch))/$(basename $patch)"; rm -rf "$scratch"; fail=1; continue; fi
     ev=$(mktemp -d /tmp/pvselfv.XXXXXX)
     mkdir -p $ev/ledger; cp "$V/props.json" "$V/known_findings.jsonl" $ev/; cp "$V/ledger/$p.json" $ev/ledger/; cp -r "$V/replay" $ev/
     out=$(VERIF_NO_REPLAY=${SELFTEST_NO_REPLAY-} "$BIN" -repo "$scratch" -stdlib "$V/stdlib" -verif "$ev" -prop $p -tier quick 2>&1); rc=$?
     if [ $rc -eq 1 ] && echo "$out" | grep -q '^VIOLATION'; then
-      echo "CAUGHT $p $(basename $patch): $(echo "$out" | grep '^VIOLATION' | head -1 | sed 's/.*# //')"
+      echo "CAUGHT $p $(basename $(dirname $patch))/$(basename $patch): $(echo "$out" | grep '^VIOLATION' | head -1 | sed 's/.*# //')"
     else
-      echo "MISSED $p $(basename $patch) (rc=$rc)"; echo "$out" | tail -3 | sed 's/^/    /'; fail=1
+      echo "MISSED $p $(basename $(dirname $patch))/$(basename $patch) (rc=$rc)"; echo "$out" | tail -3 | sed 's/^/    /'; fail=1
     fi
     rm -rf "$scratch" "$ev"
   done
